@@ -1158,6 +1158,27 @@ def c01(sc, V):
                 f.append({"sig": "numprocesses-negative", "step": s.n, "msg": "%s: %d" % (w["name"], n)})
             if cfg is not None and cfg.get("singleton") and n > 1:
                 f.append({"sig": "singleton-above-one", "step": s.n, "msg": "%s: %d" % (w["name"], n)})
+        # max_age: "a max_age expiry" is a change the fixpoint clause allows — but only a worker older than max_age expires;
+        # a check that signals a younger worker of a watcher that has exactly its numprocesses workers disturbs a converged state
+        if s.kind() == "check" and not s.before.blocked and not any(x.cmd() == "set" for x in V[:s.n]):
+            for wb in s.before.watchers:
+                cfgm = next((c for c in sc["watchers"] if c["name"] == wb["name"]), None)
+                if not cfgm or not cfgm.get("max_age") or wb["status"] != "active":
+                    continue
+                try:
+                    if len(wb["procs"]) != int(wb["np"]):
+                        continue
+                except ValueError:
+                    continue
+                st_times = spawn_times(sc, V[:s.n + 1])
+                for l in s.lines:
+                    if l[0] == "sig" and l[2] != 0 and any(p[0] == l[1] for p in wb["procs"]) and l[1] in st_times and \
+                            alive(s.before.kernel.get(l[1], ("g", 0))[0]):
+                        if a.t - st_times[l[1]] <= cfgm["max_age"] * 1000:
+                            f.append({"sig": "young-worker-expired", "step": s.n,
+                                      "msg": "the check signalled worker %d of %s, %d ms old, max_age %d s, no surplus"
+                                             % (l[1], wb["name"], a.t - st_times[l[1]], cfgm["max_age"])})
+                            break
         calm_check = s.kind() == "check" and a.quiescent() and not a.stopping and \
             not any(l[0] in ("conflict", "raised") for l in s.lines) and not (s.n > 0 and V[s.n - 1].kind() == "fault")
         if calm_check:
